@@ -290,6 +290,11 @@ func cmdCheck(args []string) {
 	}
 	assumptions = append(assumptions, "machine integers: Go's wrap-around semantics are modelled exactly; floats and strings other than Rounder constants are unconstrained")
 	sort.Strings(assumptions)
+	// V vacuity guard, S safety, F frame, R postcondition/assert, L loop, T delegation, G lemma/hint, D destination definedness and operand freshness
+	byClass := map[string]int{}
+	for _, o := range obls {
+		byClass[o.Class]++
+	}
 	ev := map[string]interface{}{
 		"property_id": prop,
 		"tier":        *tier,
@@ -309,6 +314,7 @@ func cmdCheck(args []string) {
 			"not_covered":                          notCovered[prop],
 			"known_findings":                       knownHit,
 			"generator_problems":                   problems,
+			"obligations_by_class":                 byClass,
 			"loops_without_termination_obligation": noTerm,
 			"bounded_standins":                     bounded,
 			"exhaustive":                           false,
